@@ -27,6 +27,14 @@ pub fn drive(tr: &mut Tracer, rng: &mut StdRng, thorough: bool) {
         emit(tr, dec(k < 0, &format!("{}", k.abs()), 0));
         k += step;
     }
+    // the same arguments in other representations: negative scale (5e1), trailing zeros (50.00)
+    let reps: Vec<i64> = if thorough { (-12..=12).collect() } else { vec![-12, -9, -5, -3, -1, 1, 3, 7, 11] };
+    for t in reps {
+        if t == 0 { continue; }
+        emit(tr, dec(t < 0, &format!("{}", t.abs()), -1));
+        emit(tr, dec(t < 0, &format!("{}00", t.abs() * 10), 2));
+        if (thorough && t.abs() <= 10) || t.abs() == 1 { emit(tr, dec(t < 0, &format!("{}", t.abs()), -2)); }
+    }
     // random arguments: 1..40 digits, magnitudes 1e-60 .. 1e3 (|x| <= 120 quick)
     let cnt = if thorough { 600 } else { 26 };
     for i in 0..cnt {
